@@ -6,6 +6,7 @@
 (*   inputs/*.json  --run-parallel (N nodes x C cores)-->  results_k.json.gz*)
 (*                  --Analysis(results/)-->  n_trials per simulation       *)
 (*                                                                         *)
+(* Jobs are launched directly or through a generated cluster script.      *)
 (* It composes Parallel.tla (task arithmetic, C14) with the resume rule of *)
 (* BatchSimulation (Batch.tla, C12: a task that finds its results file     *)
 (* continues from the saved count and never discards trials) and the       *)
@@ -81,13 +82,20 @@ Obs(f) == [files |-> [t \in Tasks |-> f[t]],
 \* what one task leaves in its file when it runs to the end
 After(t, del) == IF del THEN Runs(Cur, t) ELSE Max(Stored(t), Runs(Cur, t))
 
+\* How a job is launched: by calling `panqec run-parallel` directly, or by
+\* the script that `panqec generate-cluster-script` writes for a scheduler
+\* (the script holds the run-parallel command with N, C, the current request
+\* and the scheduler's array-index variable in the place of the job index).
+\* The launching path has no effect of its own on the data directory.
+Launchers == {"direct", "sge", "slurm", "pbs"}
+
 \* job j of N runs all its C tasks to completion
-RunJob(j, del) ==
+RunJob(j, del, via) ==
   /\ steps < MaxSteps
   /\ LET f == [t \in Tasks |-> IF t \in TasksOf(j) THEN After(t, del) ELSE files[t]] IN
      /\ files' = f
      /\ hist' = Append(hist, [a |-> "job", job |-> j, delete |-> del, trials |-> T,
-                              expect |-> Obs(f)])
+                              via |-> via, expect |-> Obs(f)])
   /\ steps' = steps + 1
   /\ UNCHANGED <<cfg, T, extended>>
 
@@ -114,7 +122,7 @@ Extend(T2) ==
   /\ steps' = steps + 1
   /\ UNCHANGED <<cfg, files>>
 
-Next == \/ \E j \in 1..cfg.N, del \in BOOLEAN : RunJob(j, del)
+Next == \/ \E j \in 1..cfg.N, del \in BOOLEAN, via \in Launchers : RunJob(j, del, via)
         \/ \E j \in 1..cfg.N : \E t0 \in TasksOf(j), m \in 0..MaxT : PartialJob(j, t0, m)
         \/ \E T2 \in 1..MaxT : Extend(T2)
 Spec == Init /\ [][Next]_vars
